@@ -378,9 +378,151 @@ func (h *H) checkPstrf(id string, seedIdx, n int, ul blas.Uplo, cls string, deep
 	}
 }
 
+// checkPstrfTol exercises the documented option tol >= 0 of Dpstrf / Dpstf2
+// ("the algorithm terminates if the pivot is less than or equal to tol"; a
+// negative tol selects the default n*eps*max(diag)) with explicit user values,
+// in the blocked and the unblocked routine and on both sides of the blocking
+// threshold n = 64. The verdict comes from the reference pivot sequence
+// p_0 >= p_1 >= ... of refPivotedCholesky:
+//
+//	rank must lie between the number of reference pivots above tol+slack and
+//	above tol-slack (slack = 100 n u max|a_ii| for the rounding of the pivots;
+//	the first pivot is accepted whenever it is positive, as in the code and the
+//	reference LAPACK); every accepted pivot u_jj^2 (j >= 1) must exceed tol;
+//	ok == (rank == n); Dpstrf and Dpstf2 must report the same rank when the
+//	reference pivots are not within slack of tol; PᵀAP on the leading rank
+//	rows must be reproduced.
+//
+// cls: "spec" (SPD, eigenvalues geometric 1 .. 1e-6: pivots decay steadily),
+// "lowrank+noise" (BᵀB of rank r plus 1e-8 times an SPD matrix: r large
+// pivots, then positive pivots at the 1e-8 level).
+func (h *H) checkPstrfTol(id string, seedIdx, n int, ul blas.Uplo, cls string) {
+	rng := h.c.RNG("pstrftol", seedIdx)
+	cs := h.newCase(id, rng)
+	defer cs.done()
+	if n < 3 {
+		return
+	}
+	upper := ul == blas.Upper
+	var a *ref.M
+	switch cls {
+	case "spec":
+		a = spd(rng, n, 1e6)
+	default:
+		r := 2 + rng.Intn(max(1, min(n-2, 12)))
+		b := ref.FromFunc(r, n, func(i, j int) float64 { return rng.Sym() })
+		a = ref.Add(ref.Mul(b.T(), b), ref.Scale(1e-8, spd(rng, n, 10)))
+		symmetrise(a)
+	}
+	amax := a.MaxAbs()
+	pv := refPivotedCholesky(a)
+	if len(pv) < 3 {
+		return
+	}
+	slack := 100 * float64(n) * eps * amax
+	// User tolerances placed in the middle of a gap of the reference pivot
+	// sequence (so that the expected rank is unambiguous), plus 0 and a value
+	// above every pivot.
+	gap := func(j int) float64 { return math.Sqrt(pv[j] * pv[j+1]) }
+	tols := []float64{0, gap(0), gap(len(pv) / 3), gap(len(pv) - 2), 2 * pv[0]}
+	if cls != "spec" {
+		tols = append(tols, 1e-4*amax) // "numerical rank" use case: between the two pivot levels
+	}
+	countAbove := func(x float64) int {
+		c := 1 // the first pivot is not compared with tol
+		for _, p := range pv[1:] {
+			if p > x {
+				c++
+			} else {
+				break
+			}
+		}
+		return c
+	}
+	flags := D{"uplo": int(ul)}
+	for ti, tol := range tols {
+		lo, hi := countAbove(tol+slack), countAbove(tol-slack)
+		tag := uploTag(ul) + " tol>=0"
+		ranks := map[string]int{}
+		for ci, c := range []struct {
+			routine string
+			cf      cfg
+		}{{"Dpstf2", cfg{}}, {"Dpstrf", cfg{}}, {"Dpstrf", cfg{pad: 7, guard: (seedIdx+ti)%2 == 0}}} {
+			args, res := cs.call(c.routine, tag, D{"n": n}, flags, c.cf, func(x *lapackgen.Args) {
+				setMat(x, "a", a)
+				x.Arg("tol").F = tol
+			})
+			if args == nil {
+				continue
+			}
+			rank := res.Int
+			what := fmt.Sprintf("%v n=%d class=%s tol=%.3g (reference pivots above tol: %d..%d of %d)", c.cf, n, cls, tol, lo, hi, len(pv))
+			if rank < lo || rank > hi {
+				cs.fail(c.routine, tag, "rank-disagrees-with-reference-pivots", "%s: rank=%d ok=%v", what, rank, res.OK)
+				continue
+			}
+			if res.OK != (rank == n) {
+				cs.fail(c.routine, tag, "ok-inconsistent-with-rank", "%s: rank=%d ok=%v", what, rank, res.OK)
+			}
+			piv := cloneI(args.Ints("piv"))
+			if !isPerm(piv) {
+				cs.fail(c.routine, tag, "piv-not-a-permutation", "%s", what)
+				continue
+			}
+			t := getTri(args, "a", upper)
+			for j := 1; j < rank; j++ {
+				d := t.D[j*n+j]
+				if !(d*d > tol*(1-16*eps)-slack) {
+					cs.fail(c.routine, tag, "accepted-pivot-not-above-tol", "%s: rank=%d, accepted pivot %d is %g", what, rank, j, d*d)
+					break
+				}
+			}
+			pap := ref.FromFunc(n, n, func(i, j int) float64 { return a.D[piv[i]*n+piv[j]] })
+			var prod *ref.M
+			if upper {
+				u := subRows(t, 0, rank)
+				prod = ref.Mul(subCols(u, 0, rank).T(), u)
+			} else {
+				l := subCols(t, 0, rank)
+				prod = ref.Mul(subRows(l, 0, rank), l.T())
+			}
+			cs.band(c.routine, tag, "pstrf-reconstruction", ref.MaxDiff(subRows(pap, 0, rank), prod), float64(n)*eps*amax, func() string { return what + fmt.Sprintf(" rank=%d", rank) })
+			ranks[fmt.Sprintf("%d:%s", ci, c.routine)] = rank
+		}
+		if lo == hi {
+			for k, r := range ranks {
+				if r != lo {
+					cs.fail("Dpstrf~Dpstf2", tag, "rank-differs", "n=%d class=%s tol=%.3g: %s gave rank %d, expected %d", n, cls, tol, k, r, lo)
+				}
+			}
+		}
+	}
+}
+
 func (h *H) planPstrf(add addFn) {
 	idx := 0
 	uplos := []blas.Uplo{blas.Upper, blas.Lower}
+	// explicit tolerances, sizes on both sides of the block size 64
+	tolSizes := []int{5, 17, 33, 63, 64, 65, 66, 100, 129}
+	if h.thorough() {
+		tolSizes = []int{3, 5, 8, 17, 33, 47, 63, 64, 65, 66, 96, 100, 127, 128, 129, 130, 160, 200}
+	}
+	for rep := 0; rep < h.reps(); rep++ {
+		for si, n := range tolSizes {
+			for ui, ul := range uplos {
+				for ci, cls := range []string{"spec", "lowrank+noise"} {
+					if !h.thorough() && (si+ui+ci+rep)%2 == 1 {
+						continue
+					}
+					idx++
+					i := idx
+					n, ul, cls := n, ul, cls
+					id := fmt.Sprintf("PstrfTol n=%d uplo=%c class=%s #%d", n, ul, cls, i)
+					add("pstrf", 6*n*n*n, func() { h.checkPstrfTol(id, 100000+i, n, ul, cls) })
+				}
+			}
+		}
+	}
 	for rep := 0; rep < h.reps(); rep++ {
 		for si, n := range h.squares() {
 			for ui, ul := range uplos {
